@@ -695,8 +695,12 @@ func (d *streamDriver) probeOnce(bt *built, px *pexp) (o observation) {
 		switch {
 		case mustLeft > 0:
 			wait = d.e.wait(d.path)
+		case px.closes && len(o.answers) == 0:
+			// The server is documented to close the stream; that normally
+			// happens at once.
+			wait = min(d.e.closeWait, d.e.wait(d.path))
 		case px.closes:
-			wait = d.e.closeWait
+			wait = d.e.graceWait
 		case px.incomplete:
 			wait = d.e.tailWait
 		default:
@@ -718,6 +722,10 @@ func (d *streamDriver) probeOnce(bt *built, px *pexp) (o observation) {
 			o.end = "closed"
 		case errors.Is(rErr, tbench.ErrTimeout):
 			o.end = "no-answer"
+			if px.closes && len(o.answers) == 0 && mustLeft == 0 {
+				// Neither an answer nor the documented close.
+				d.e.missed(d.path)
+			}
 		default:
 			o.end = "closed"
 			o.detail = rErr.Error()
